@@ -78,6 +78,7 @@ TNext ==
           [] e.op = "get"       -> BeginGet(e.rank, e.a)
           [] e.op = "full"      -> BeginFull(e.rank, e.a)
           [] e.op = "yield"     -> Yield(e.rank, e.a)
+          [] e.op = "abandon"   -> Abandon(e.rank)
           [] e.op = "end"       -> /\ End(e.rank)
                                    /\ (it[e.rank].full \/ e.a = LenCode(e.rank))
   /\ (Diag \/ AllInv')
